@@ -72,12 +72,14 @@ type runner struct {
 	nCalls  int64
 	maxA    map[string]uint64 // largest allocation delta seen per entry point (fast counter)
 	maxT    map[string]time.Duration
+	confirmed map[string]bool // allocation violation keys already confirmed with the precise counter
+	allocHits map[string]int  // confirmed allocation violations per entry point + input class (circuit breaker)
 	sumT    map[string]time.Duration
 	cnt     map[string]int64
 }
 
 func newRunner(c *vc.Ctx) *runner {
-	r := &runner{c: c, smp: []metrics.Sample{{Name: "/gc/heap/allocs:bytes"}}, hang: make(chan caseRec, 1), stopAt: map[string]bool{}, maxA: map[string]uint64{}, maxT: map[string]time.Duration{}, sumT: map[string]time.Duration{}, cnt: map[string]int64{}}
+	r := &runner{c: c, smp: []metrics.Sample{{Name: "/gc/heap/allocs:bytes"}}, hang: make(chan caseRec, 1), stopAt: map[string]bool{}, maxA: map[string]uint64{}, maxT: map[string]time.Duration{}, confirmed: map[string]bool{}, allocHits: map[string]int{}, sumT: map[string]time.Duration{}, cnt: map[string]int64{}}
 	os.MkdirAll(scratchDir, 0o755)
 	r.curFile = filepath.Join(scratchDir, fmt.Sprintf("current-%d.txt", c.Shard))
 	return r
@@ -220,9 +222,17 @@ func (r *runner) do(sec string, ep *EP, in []byte, class string) (ok, bad bool) 
 		return false, true
 	}
 	if d := a1 - a0; d > allocBound(ep, len(in)) && a1 > a0 {
-		if pd := preciseAlloc(ep, in); pd > allocBound(ep, len(in)) {
+		key := "alloc/" + ep.Name + "/" + allocClass(class)
+		// the first case of a key (and every borderline case) is confirmed with the precise counter; once the key is
+		// confirmed, a case whose fast delta exceeds twice the bound is counted without re-running it three times
+		pd := d
+		if !r.confirmed[key] || d <= 2*allocBound(ep, len(in)) {
+			pd = preciseAlloc(ep, in)
+		}
+		if pd > allocBound(ep, len(in)) {
+			r.confirmed[key] = true
+			r.allocHits[ep.Name+"|"+class]++
 			inc := append([]byte{}, in...)
-			key := "alloc/" + ep.Name + "/" + allocClass(class)
 			c.Violation(sec, key, fmt.Sprintf("%s allocated %d bytes for a %d-byte input %s [%s] (bound %d = 256 KiB + 4000 x input length + allowance %d)", ep.Name, pd, len(in), short(in), class, allocBound(ep, len(in)), ep.Base),
 				caseRec{ep.Name, vc.Hex(inc), class}, func() bool { return preciseAlloc(ep, inc) > allocBound(ep, len(inc)) })
 			c.Outcome(sec, "ALLOC")
@@ -321,6 +331,19 @@ func (r *runner) batch(sec string, eps []*EP, ins [][]byte, class string, accept
 			r.do(sec, ep, in, class)
 		}
 	}
+}
+
+// tripped reports whether the circuit breaker for (entry point, class) is open: after 24 confirmed allocation violations
+// the remaining cases of that class are skipped (each one may allocate gigabytes) and the section is marked non-exhaustive.
+func (r *runner) tripped(sec string, ep *EP, class string) bool {
+	if r.allocHits[ep.Name+"|"+class] < 24 {
+		return false
+	}
+	if r.allocHits[ep.Name+"|"+class] == 24 {
+		r.allocHits[ep.Name+"|"+class]++
+		r.c.SecNotExhaustive(sec, fmt.Sprintf("circuit breaker: 24 allocation violations of %s on class %s; remaining cases of that class skipped", ep.Name, class))
+	}
+	return true
 }
 
 // allocClass maps an input class to the root-cause part of an allocation key.
